@@ -11,29 +11,29 @@ TABLE = {
          [('C01_frame_step_never_faults', 'safe_step'), ('C01_frame_never_faults', 'safe_frame'), ('C01_history_never_faults', 'safe_history'),
           ('C01_classifier_stays_inside', 'classify_total'), ('C01_esp32_reads_inside_length', 'esp32_total'), ('C01_tick_total', 'tick_total'),
           ('C01_every_entry_point_every_history', 'rx_history_safe'), ('C01_hypotheses_satisfiable', 'rx_history_applies')]),
- 'C02': ('BlockFun BlockNominal SystemRefinement SpecTx TxProofs', 'C02: every transmitted frame passes the independent validator wf_tx; solicited only; junk independent; link to the buffer-level model',
+ 'C02': ('BlockFun BlockNominal SystemRefinement SpecTx TxProofs BufferLevel', 'C02: every transmitted frame passes the independent validator wf_tx; solicited only; junk independent; link to the buffer-level model',
          [('C02_every_frame_well_formed', 'C02_wf_step'), ('C02_only_solicited_and_bounded', 'C02_solicited'), ('C02_hello_property_list_well_formed', 'wf_hello'),
-          ('C02_no_uninitialised_byte', 'junk_independent'), ('C02_buffer_level_model_refines', 'step_nominal'), ('C02_registry_level_refines', 'frame_nominal')]),
+          ('C02_no_uninitialised_byte', 'junk_independent'), ('C02_buffer_level_model_refines', 'step_nominal'), ('C02_registry_level_refines', 'frame_nominal'), ('C02_on_the_buffer_level_model', 'C02_buffer_level'), ('C02_every_history_every_interface_buffer_level', 'C02_buffer_level_history'), ('C02_every_send_of_any_run', 'C02_buffer_level_trace')]),
  'C03': ('BlockFun BlockNominal PropsMapper SystemRefinement', 'C03: an accepted Discover is answered by exactly one correct Hello',
          [('C03_accepted_discover_one_hello', 'C03_one_hello'), ('C03_hello_fields', 'C03_hello_shape'), ('C03_generation_of_that_discover', 'C03_generation_recorded'),
           ('C03_refused_discover_silence', 'C03_rejected'), ('C03_hellos_heard_change_nothing', 'C03_hello_heard'), ('C03_buffer_level_model_refines', 'step_nominal'), ('C03_on_the_buffer_level_model', 'C03_buffer_level')]),
- 'C04': ('BlockFun SpecTx TxProofs', 'C04: decoding a Hello yields the attributes the platform supplied; Linux getters',
+ 'C04': ('BlockFun SpecTx TxProofs BufferLevel', 'C04: decoding a Hello yields the attributes the platform supplied; Linux getters',
          [('C04_hello_decodes_to_attributes', 'C04_roundtrip'), ('C04_wireless_only_on_wireless', 'C04_wireless_gate'), ('C04_property_list_parses', 'parse_props_hello'),
-          ('C04_be32_roundtrip', 'be32_roundtrip'), ('C04_signed_roundtrip', 's32_roundtrip'), ('C04_linux_platform_layer', 'C04_linux')]),
+          ('C04_be32_roundtrip', 'be32_roundtrip'), ('C04_signed_roundtrip', 's32_roundtrip'), ('C04_linux_platform_layer', 'C04_linux'), ('C04_on_the_buffer_level_model', 'C04_buffer_level')]),
  'C05': ('BlockFun PropsMapper SystemRefinement', 'C05: one mapper at a time',
          [('C05_discover_answered_iff', 'C05_answered_iff'), ('C05_accepted_becomes_mapper', 'C05_becomes_mapper'), ('C05_mapper_preserved', 'C05_preserved'),
           ('C05_reset_releases', 'C05_reset_releases'), ('C05_foreign_service_inert', 'C05_foreign_service'), ('C05_short_frame_inert', 'C05_unparsable'),
           ('C05_history', 'C05_history'), ('C05_history_next_discover', 'C05_history_next'), ('C05_after_reset_anyone', 'C05_after_reset_any'), ('C05_on_the_buffer_level_model', 'C05_buffer_level')]),
- 'C06': ('BlockFun PropsEmit', 'C06: Emit executed descriptor by descriptor, then acknowledged; bounded',
-         [('C06_emit_sequence', 'C06_emit'), ('C06_descriptor_slicing', 'read_descs_spec'), ('C06_unknown_kinds', 'C06_emit_any_frames'), ('C06_oversize_count_dropped', 'C06_nofit'), ('C06_transmission_bound', 'C06_bound')]),
- 'C07': ('BlockFun PropsQuery', 'C07: every observed probe reported exactly once',
+ 'C06': ('BlockFun PropsEmit BufferLevel', 'C06: Emit executed descriptor by descriptor, then acknowledged; bounded',
+         [('C06_emit_sequence', 'C06_emit'), ('C06_descriptor_slicing', 'read_descs_spec'), ('C06_unknown_kinds', 'C06_emit_any_frames'), ('C06_oversize_count_dropped', 'C06_nofit'), ('C06_transmission_bound', 'C06_bound'), ('C06_on_the_buffer_level_model', 'C06_buffer_level'), ('C06_any_kinds_buffer_level', 'C06_buffer_level_any'), ('C06_oversize_buffer_level', 'C06_buffer_level_nofit'), ('C06_bound_buffer_level', 'C06_buffer_level_bound')]),
+ 'C07': ('BlockFun PropsQuery BufferLevel', 'C07: every observed probe reported exactly once',
          [('C07_record_rule', 'C07_record'), ('C07_no_duplicate_keys', 'C07_nodup_run'), ('C07_query_reports', 'C07_query'), ('C07_query_on_the_wire', 'C07_query_decoded'),
           ('C07_reply_destination', 'reply_dst_spec'), ('C07_other_frames_keep', 'C07_others_keep'), ('C07_reset_discards', 'C07_reset_discards'),
-          ('C07_conservation', 'C07_conservation'), ('C07_drain', 'C07_drain'), ('C07_drain_last_clear', 'C07_drain_last')]),
- 'C08': ('BlockFun PropsLarge', 'C08: large properties retrievable byte-exactly by offset',
+          ('C07_conservation', 'C07_conservation'), ('C07_drain', 'C07_drain'), ('C07_drain_last_clear', 'C07_drain_last'), ('C07_on_the_buffer_level_model', 'C07_buffer_level'), ('C07_decoded_buffer_level', 'C07_buffer_level_decoded'), ('C07_record_buffer_level', 'C07_buffer_level_record')]),
+ 'C08': ('BlockFun PropsLarge BufferLevel', 'C08: large properties retrievable byte-exactly by offset',
          [('C08_response', 'C08_step'), ('C08_chunk_length', 'C08_chunk_length'), ('C08_fits_mtu', 'C08_fits'), ('C08_seq_zero_ignored', 'C08_seq0'), ('C08_unknown_or_past_end', 'C08_past_end'),
           ('C08_wire_decoding', 'decode_qlt_frame'), ('C08_reassembly', 'C08_reassemble'), ('C08_mapper_loop_end_to_end', 'C08_fetch_wire'), ('C08_offsets_fit', 'C08_offsets_16bit'),
-          ('C08_icon_cached', 'C08_icon_cached'), ('C08_hardware_id', 'C08_hwid_prefix')]),
+          ('C08_icon_cached', 'C08_icon_cached'), ('C08_hardware_id', 'C08_hwid_prefix'), ('C08_on_the_buffer_level_model', 'C08_buffer_level'), ('C08_seq0_buffer_level', 'C08_buffer_level_seq0'), ('C08_icon_buffer_level', 'C08_buffer_level_icon')]),
  'C09': ('BlockFun PropsMapper SystemRefinement', 'C09: a topology Reset returns the responder to fresh-start behaviour',
          [('C09_normalisation_step', 'C09_norm_step'), ('C09_reset_gives_fresh', 'C09_reset_fresh'), ('C09_after_reset_like_fresh', 'C09_history'), ('C09_one_run', 'C09_history_run'), ('C09_on_the_buffer_level_model', 'C09_buffer_level')]),
  'C10': ('BlockFun PropsEmit EndToEnd', 'C10: probes emitted by one responder are observed by a peer responder',
